@@ -1652,6 +1652,10 @@ def gen_if_stmt(node, code, codegen):
 
 @QvmCodeGen.generator_for(stmt.InputStmt)
 def gen_input(node, code, codegen):
+    for var in node.var_list:
+        if var.implicit_decl and var.implicit_decl.type.is_array:
+            gen_static_array_init(var.implicit_decl, code, codegen)
+
     code.add_string_literal(node.prompt.value)
 
     same_line = -1 if node.same_line else 0
@@ -1761,6 +1765,8 @@ def gen_randomize(node, code, codegen):
 @QvmCodeGen.generator_for(stmt.ReadStmt)
 def gen_read_stmt(node, code, codegen):
     for var in node.var_list:
+        if var.implicit_decl and var.implicit_decl.type.is_array:
+            gen_static_array_init(var.implicit_decl, code, codegen)
         code.add(('push%', var.type.type_id))
         code.add(('io', 'data', 'read'))
         gen_lvalue_write(var, code, codegen)
